@@ -151,7 +151,9 @@ def ringsAgree (p : Parsed) (secs nPoints : Nat) (s : Int) : Option String := Id
       if v.p.2.1 != v0.p.2.1 then return some s!"ring {j}: height changes at column {i}"
       if v.n.2.1 != v0.n.2.1 then return some s!"ring {j}: normal y changes at column {i}"
       let r := v.p.1 * v.p.1 + v.p.2.2 * v.p.2.2
-      if 100000 * iabs (r - r0) > s * s then return some s!"ring {j}: radius changes at column {i}"
+      -- the incremental rotation accumulates about one rounding per column: the tolerance grows with the column
+      -- count beyond 100 columns (1e-5 of the squared scale up to 100 sectors, 1e-7 per sector after that)
+      if 100000 * iabs (r - r0) > s * s * (max 100 secs : Nat) / 100 then return some s!"ring {j}: radius changes at column {i}"
       let m := v.n.1 * v.n.1 + v.n.2.2 * v.n.2.2
       if 10000 * iabs (m - m0) > one * one then return some s!"ring {j}: normal radial length changes at column {i}"
   return none
